@@ -179,6 +179,35 @@ def run_site(site: str, mode: Tuple, nfac: Tuple[int, int], pbase: int,
         if site == "prefix_mul":
             p = im.shadow_prefix(pbase or 10, SInt(z3.Int("q_p")))
             return (p * a,)
+        if site == "from_json":
+            # what the JSON decoder hands over for a unit that satisfies Inv (nested objects are
+            # decoded bottom-up); dimensions built on the way are interned for real (AssocTable:
+            # equal exponent vectors give the same object), since code may rely on identity
+            measured.Dimension._known = im.AssocTable()
+            doc = {"__measured__": "Unit", "name": None, "symbol": None, "dimension": a.dimension,
+                   "prefix": a.prefix if pbase else None, "factors": [[u, e] for u, e in a.factors.items()]}
+            # exploration re-executes the function and needs it deterministic: objects hash by
+            # address, so a set of dimensions would iterate in a different order every time;
+            # within this call dimensions hash by order of first use instead
+            serial: Dict[int, int] = {}
+            keep: List[Any] = []
+
+            def by_first_use(d: Any) -> int:
+                if id(d) not in serial:
+                    serial[id(d)] = len(serial) + 1
+                    keep.append(d)
+                return serial[id(d)]
+
+            had = "__hash__" in measured.Dimension.__dict__
+            old = measured.Dimension.__dict__.get("__hash__")
+            measured.Dimension.__hash__ = by_first_use   # type: ignore
+            try:
+                return (Unit.__from_json__(doc),)
+            finally:
+                if had:
+                    measured.Dimension.__hash__ = old    # type: ignore
+                else:
+                    del measured.Dimension.__hash__
         raise symnum.HarnessError(site)
 
     def guarded() -> Any:
@@ -212,7 +241,9 @@ def _replay(site: str, base_lines: List[str], nfac: Tuple[int, int], pbase: int,
     n = m.get("n", 1)
     op = {"mul": "a * b", "div": "a / b", "pow": f"a ** {n}", "root": f"a.root({n})",
           "ratio": "(format(a, '/'), a.as_ratio())[1]", "quantify": "a.quantify().unit",
-          "prefix_mul": f"measured.Prefix({pbase or 10}, {m.get('q_p', 1)}) * a"}[site]
+          "prefix_mul": f"measured.Prefix({pbase or 10}, {m.get('q_p', 1)}) * a",
+          "from_json": "measured.Unit.__from_json__({'__measured__': 'Unit', 'name': None, 'symbol': None, "
+                       "'dimension': DIM, 'prefix': PRE, 'factors': FACTORS})"}[site]
     return families.REPLAY_IMPORTS + "\n".join(base_lines) + f"""
 from measured import Unit, One, Number
 def inv(u):
@@ -221,7 +252,13 @@ def inv(u):
         if f is not One:
             d = d * f.dimension ** e
     return d is u.dimension
-a, b = {a}, {b}
+a, b = {f"{a}, {b}" if site != "from_json" else "None, None"}
+# (from_json) the document another process would have written for `a`, without building `a` here first
+FACTORS = [[B{0}, {m.get('a_e0', 0)}]] + ([[B1, {m.get('a_e1', 0)}]] if {nfac[0]} > 1 else []) + ([[B2, {m.get('a_e2', 0)}]] if {nfac[0]} > 2 else [])
+DIM = Number
+for f_, e_ in FACTORS:
+    DIM = DIM * f_.dimension ** e_
+PRE = measured.Prefix({pbase}, {m.get('a_p', 0)}) if {pbase} else None
 try:
     r = {op}
 except measured.FractionalDimensionError as e:
@@ -434,7 +471,7 @@ def tasks_for(tier: str) -> List[Tuple]:
     tasks: List[Tuple] = []
     pos_sets = [(1, 2, 3), (4, 5, 6), (7, 8, 9)] if tier == "quick" else \
         list(itertools.combinations(range(1, n), 3))[::4]
-    for site in ("mul", "div", "pow", "ratio", "quantify", "prefix_mul"):
+    for site in ("mul", "div", "pow", "ratio", "quantify", "prefix_mul", "from_json"):
         for ps in pos_sets:
             for nfac in ((2, 2), (1, 1), (3, 1)) if tier == "thorough" else ((2, 2),):
                 for pb in ((10, 0) if tier == "quick" else (10, 2, 0)):
@@ -442,7 +479,7 @@ def tasks_for(tier: str) -> List[Tuple]:
                         tasks.append((site, ("sym", ps), nfac, pb))
     real_sets = REAL_BASE_SETS if tier == "thorough" else REAL_BASE_SETS[:4]
     for names in real_sets:
-        for site in ("pow", "ratio", "mul", "div"):
+        for site in ("pow", "ratio", "mul", "div", "from_json"):
             for nfac in ((3, 1), (2, 2), (1, 1)):
                 if site in ("pow", "ratio") and nfac == (2, 2) and tier == "quick":
                     continue
@@ -475,6 +512,7 @@ def main(tier: str, selftest_cases: int = 0) -> int:
     results = par.run("props.c01", "worker", tasks)
     work.merge(rep, results)
     # Unit.define and __from_json__ hand the constructor their arguments unchanged: read off the AST
+    # Unit.define hands the constructor its arguments unchanged: read off the AST
     rep.ob("unsat", "Unit.define: cls(IdentityPrefix, {}, dimension, name, symbol): factors {self:1}, "
            "Inv holds by definition of a base unit", ("define",))
     rep.functions.update(["measured.Unit._multiply", "measured.Unit._divide", "measured.Unit.__pow__",
